@@ -70,6 +70,24 @@ def run_C15(case):
                     B.traph.add_page(O.arg(old_lru))
                 B.close()
                 res.probes["overwrite_on_used_folder"] += 1
+            if cfg.get("rejected_first") and not (overwrite and cfg.get("used_folder")):
+                # the first attempt to create the index is refused for its arguments (a pattern that
+                # does not compile, or a rules argument of the wrong type); the caller corrects them
+                # and tries again on the same folder: that index is still "created fresh on disk"
+                kind = cfg["rejected_first"]
+                bad_default, bad_rules = (b"(unclosed", dict(rules)) if kind == "regex" else ((default, [tuple(x) for x in rules.items()]) if kind == "rules_type" else ("(?i)str-not-bytes", dict(rules)))
+                for X in (A, B):
+                    X._select()
+                    from traph import Traph
+
+                    try:
+                        Traph(folder=X.folder, overwrite=False, encoding=X.encoding, default_webentity_creation_rule=bad_default, webentity_creation_rules=bad_rules)
+                        refused = False
+                    except Exception:
+                        refused = True
+                    if not refused:
+                        raise Fail("C15.same_outcome", "construction with a %s argument was not refused" % kind)
+                res.probes["first_construction_refused_" + kind] += 1
             B.open(default, rules, overwrite=overwrite)
             every = cfg.get("sweep_every", 4) or 10**9
             n = len(case["ops"])
@@ -247,6 +265,8 @@ def gen_C15(rng, tier, seed):
         c["config"]["used_folder"] = [O.enc(g.lru()) for _ in range(rng.randint(1, 4))]
     c["config"]["backend"] = "real" if rng.random() < 0.2 else "sim"
     c["config"]["sweep_every"] = rng.choice([1, 2, 4, 8])
+    if rng.random() < 0.12:
+        c["config"]["rejected_first"] = rng.choice(["regex", "rules_type", "default_type"])
     sr = []
     for i, o in enumerate(c["ops"]):
         if (o["op"] == "clear" and rng.random() < 0.7) or rng.random() < 0.05:
